@@ -110,6 +110,18 @@ package tcp
 // no mutable package-level state (C12, and every property whose plan touches this package)
 //@ property C12
 //@ globals immutable
+// the tcp options are shared by every Connect/Accept that uses them (WithOptions stores the pointer
+// in the context, DefaultOption is a package-level value): the package only reads them
+//@ property C12
+//@ field Options.* covered
+//@ field Options.Timeout immutable init
+//@ field Options.KeepAlive immutable init
+//@ field Options.KeepAlivePeriod immutable init
+//@ field Options.Linger immutable init
+//@ field Options.NoDelay immutable init
+//@ field Options.SockBuf immutable init
+//@ field Options.ReadBufferSize immutable init
+//@ field Options.WriteBufferSize immutable init
 //@ property C17 C12
 //@ field tcpTransport.* covered
 //@ field tcpTransport.Transport immutable newTcpTransport
